@@ -15,6 +15,7 @@ that gives the ops their meaning is coq/theories/SaveLoad/SLOps.v (`dec_op`):
   12 [fmt rec..]      Deser, literal data; a record is  id slot slot slot,  slot = 0 | 1 z | 2 m
   13 [fmt k]          Load the k-th saved data (modulo the number saved so far)
   14 []               Swap the two worlds
+  15 [h..]            DeleteMany        world.delete_entities (fails at the first handle that is not alive)
 
 Handles are positions into the list of entities seen so far in the current
 world, taken modulo its length.  Handle positions, k of Load and record counts
@@ -24,11 +25,11 @@ import itertools
 import random
 
 CREATE, INSERT, REMOVE, MARK, MARKID, DELETE, EDELETE, MAINTAIN, AMAINTAIN = 1, 2, 3, 4, 5, 6, 7, 8, 9
-SER, SERREC, DESER, LOAD, SWAP = 10, 11, 12, 13, 14
+SER, SERREC, DESER, LOAD, SWAP, DELMANY = 10, 11, 12, 13, 14, 15
 
 NAMES = {1: "Create", 2: "Insert", 3: "Remove", 4: "Mark", 5: "MarkId", 6: "Delete", 7: "EDelete",
          8: "Maintain", 9: "AllocMaintain", 10: "Serialize", 11: "SerializeRec", 12: "Deser", 13: "Load",
-         14: "Swap"}
+         14: "Swap", 15: "DeleteMany"}
 NCOMP = 3
 FORMATS = (0, 1, 2)
 MAX_ENTS = 60
@@ -599,6 +600,66 @@ def counter_history(rng):
     return b.ops
 
 
+# ------------------------------------------------------------------ batch deletions
+
+def batch_history(rng, uuid=False):
+    """world.delete_entities over marked entities, half of the batches failing in the middle (a dead handle or a
+    repeated one); then the freed indices are taken again, the newcomers marked, everything saved, loaded into the
+    other world and loaded once more into the world it came from."""
+    b = Builder(rng, uuid)
+    n = rng.randint(3, 9)
+    for _ in range(n):
+        b.add(CREATE, 0)
+    for h in range(n):
+        if rng.random() < 0.85:
+            if uuid or rng.random() < 0.3:
+                b.add(MARKID, h, b.fresh_id())
+            else:
+                b.add(MARK, h)
+        if rng.random() < 0.5:
+            b.add(INSERT, h, rng.randrange(NCOMP), 1, rand_plain(rng))
+    dead = set()
+    if rng.random() < 0.5:
+        h = rng.randrange(n)
+        b.add(DELETE, h)
+        dead.add(h)
+    nh = n
+    for _ in range(rng.randint(1, 3)):
+        live = [h for h in range(nh) if h not in dead]
+        if not live:
+            break
+        batch = rng.sample(live, rng.randint(1, min(4, len(live))))
+        if rng.random() < 0.6:
+            bad = rng.choice(sorted(dead)) if (dead and rng.random() < 0.5) else batch[0]
+            pos = rng.randint(1, len(batch))
+            batch = batch[:pos] + [bad] + batch[pos:]
+            killed = batch[:pos]
+        else:
+            killed = batch
+        b.add(DELMANY, *batch)
+        dead.update(killed)
+        if rng.random() < 0.3:
+            b.add(MAINTAIN)
+        for _ in range(rng.randint(1, len(killed) + 1)):
+            b.add(CREATE, rng.choice([0, 0, 1]))
+            if uuid or rng.random() < 0.3:
+                b.add(MARKID, nh, b.fresh_id())
+            else:
+                b.add(MARK, nh)
+            nh += 1
+        if rng.random() < 0.4:
+            b.add(AMAINTAIN)
+    fa, fb = two_formats(rng)
+    k = b.ser(fa)
+    b.add(SWAP)
+    b.load(fb, k)
+    b.ser(fb)
+    b.add(SWAP)
+    b.load(fa, k)
+    b.ser(fa)
+    return b.ops
+
+
 # ------------------------------------------------------------------ general mix
 
 class _Side:
@@ -646,7 +707,13 @@ def random_history(rng, n_ops, uuid=False):
         elif r < 0.61:
             cands = [h for h in range(s.nh) if h not in s.referenced]
             h = rng.choice(cands) if (cands and rng.random() < 0.8) else rng.randrange(s.nh)
-            b.add(rng.choice([DELETE, DELETE, EDELETE]), h)
+            if rng.random() < 0.25:
+                batch = [h] + [rng.randrange(s.nh) for _ in range(rng.randint(0, 3))]
+                if s.dead and rng.random() < 0.5:
+                    batch.insert(rng.randint(1, len(batch)), rng.choice(sorted(s.dead)))
+                b.add(DELMANY, *batch)
+            else:
+                b.add(rng.choice([DELETE, DELETE, EDELETE]), h)
             s.dead.add(h)
             if h in s.marked:
                 s.marked = [x for x in s.marked if x != h]
